@@ -282,6 +282,32 @@ def main(run):
             keep = None
         for n, ix in enumerate(tri):
             check_triple(fam, [es[i] for i in ix], emit=keep is None or n in keep)
+        # longer lists: a sublist of 4..12 family members in several shuffled orders
+        if len(es) >= 4:
+            nshuf = 3 if tier == "quick" else 10
+            for rep in range(2 if tier == "quick" else 6):
+                k = rng.randint(4, min(12, len(es)))
+                sub = rng.sample(range(len(es)), k)
+                tsub = {i: tree(es[i]) for i in sub}
+                alN = strict or all(L.m_aligned(tsub[i], tsub[j]) for i, j in itertools.combinations(sub, 2))
+                distN = len({L.m_erase(t) for t in tsub.values()}) == k
+                outsN = []
+                for sh in range(nshuf):
+                    order = sub[:]
+                    rng.shuffle(order)
+                    o = sorted_expr([es[i] for i in order])
+                    oi = [next(i for i in order if es[i] is x) for x in o]
+                    outsN.append((order, oi))
+                    if alN and sh < 2:
+                        sort_cases.append((tuple(tsub[i] for i in order), tuple(tsub[i] for i in oi)))
+                hist["sorted_lists"] = hist.get("sorted_lists", 0) + 1
+                hist["sorted_list_maxlen"] = max(hist.get("sorted_list_maxlen", 0), k)
+                if alN and distN and len({tuple(tsub[i] for i in oi) for _, oi in outsN}) > 1:
+                    viol.append(("sorted-order-dependence",
+                                 {"operands": [describe(es[i])["str"] for i in sub],
+                                  "orders given -> sorted_expr result (positions in the family)":
+                                      [[order, oi] for order, oi in outsN],
+                                  "expected": "one and the same list for all orders (C29_sort_order_independent)"}))
     for fam, es in tfams:
         for a, b in itertools.combinations(es, 2):
             ta, tb, dist, al = check_pair(fam, a, b)
@@ -428,7 +454,9 @@ def main(run):
     run.extra["case_histogram"] = {"pairs": len(pair_cases), "triples_emitted": len(triple_cases),
                                    "constructor_cases": len(ctor_cases), "families": len(fams) + len(tfams),
                                    "sorted_expr_triples_all_6_orders": hist.get("sorted_triples", 0),
-                                   "sorted_expr_cases_vs_isort": len(sort_cases)}
+                                   "sorted_expr_cases_vs_isort": len(sort_cases),
+                                   "sorted_expr_lists_len_4_to_12": hist.get("sorted_lists", 0),
+                                   "sorted_expr_list_maxlen": hist.get("sorted_list_maxlen", 0)}
     for kind, c in [u for u in uniq if u[0] == "pair"][:2] + [u for u in uniq if u[0] == "triple"][:2] + \
             [u for u in uniq if u[0] == "ctor"][:2]:
         run.sample({"kind": kind, "case": str(c)[:300]})
